@@ -51,6 +51,11 @@ CLAIMED = {
         technique="TLA+ layout oracle BeveArray (typed / complex / aligned arrays, padding and borrow rule) evaluated exhaustively by TLC; vectors replayed on encoders, decoders, streaming writers and the borrowing route; random arrays trace-validated by TLC",
         text="TLC evaluates the array layouts, closed-form lengths and the padding / borrow rule for every query length 0..64, alignment, size class and buffer misalignment 0..7, anchored on bytes of the real encoders. Every vector is replayed: bulk and (n >= 1) generic encoders and the streaming writers must produce the specification's bytes, every decoder must read every encoder's output bit for bit including the empty array, wrong element types and formats must be rejected, and an aligned request placed at each misalignment in an 8-aligned buffer must be borrowed by a with_typed_slice_ref route exactly when the model says so. Random arrays up to 2^20 elements go through builders, writers and the bulk routes with bulk, aligned and generic bodies and are judged by TLC.",
         note="The layout/padding part is model-checked exhaustively; large payload bit equality is a recorder-side comparison (exploration strength). Half floats only on the bulk paths."),
+    "C07": dict(
+        category="model_checking", design_ref="DESIGN.md §5 C07",
+        technique="TLA+ specs Pointer (RFC 6901 tokens) and Router (lookup precedence, '/' boundary, middleware chain) evaluated by TLC over all short paths and all registration orders; vectors replayed on real routers; random deep paths and the handler x format x body product trace-validated by TLC",
+        text="TLC checks escape/unescape round trip on every well-formed path up to length 5 (quick) / 6 (thorough) over {/,~,0,1,a,b} and the route winner for all 120 registration orders of an exact route, a registry mount, a struct mount and two middlewares. Each token vector is replayed through a recording RepeStruct mounted at the root and under a prefix on the owned path, the view path and behind middleware, and through parse_json_pointer; each lookup vector on a router built in that order (winner, remainder tokens, middleware hit order). Random paths with 0..40 segments and the product of twelve routes x seven format codes x eleven bodies x notify are dispatched on all four paths and TLC requires identical outcomes.",
+        note="Trusts TLC and the recording struct / middleware. Response comparison is on what a client would receive (empty handler query = echoed request query)."),
 }
 
 NOT_YET = {}
